@@ -22,7 +22,7 @@ ASSUMPTIONS = ["np.bool_ and np.datetime64 values are not generated (not 'number
                "popitem may return any present item (documented as arbitrary)",
                "for invalid-UTF-8 bytes any exception satisfies 'raises'; for other non-serialisable values TypeError is required"]
 EXHAUSTIVE = None
-MUST_HIT = ['start:none', 'start:empty', 'start:given', 'start:over-occupant-with-metadata', 'start:copy-over', 'start:empty-over', 'kind:Array', 'kind:Ragged', 'update-empty-on-empty', 'pop-default-on-empty',
+MUST_HIT = ['returned-values-mutated-by-caller', 'start:none', 'start:empty', 'start:given', 'start:over-occupant-with-metadata', 'start:copy-over', 'start:empty-over', 'kind:Array', 'kind:Ragged', 'update-empty-on-empty', 'pop-default-on-empty',
             'last-key-removed', 'val:nparr', 'val:nonascii', 'val:npint', 'val:npfloat', 'val:bytes', 'val:nan', 'bad-update',
             'pop-missing-nodefault', 'del-missing', 'popitem-empty', 'reopen', 'update:kwargs', 'update:pairs']
 KEYS = ['a', 'b', 'ключ', 'k 4']
@@ -228,6 +228,21 @@ def check_accessors(out, md, model, tag, mfile):
                     return False
                 except KeyError:
                     pass
+        # what the accessors hand out belongs to the caller: changing it in place must not change what is read next
+        touched = False
+        for obj in [d] + list(d.values()) + vals + [md.get(k) for k in model] + [md[k] for k in model] + [v for _, v in md.items()]:
+            if isinstance(obj, list):
+                obj.append('changed by the caller')
+                touched = True
+            elif isinstance(obj, dict):
+                obj['changed by the caller'] = 1
+                touched = True
+        if touched:
+            out.cls('returned-values-mutated-by-caller')
+            d2 = dict(md)
+            if not deep_eq(d2, model):
+                out.viol('accessor-mismatch', f'aliased:{tag}', f'after changing returned values in place dict(md)={d2!r:.300} model={model!r:.300}')
+                return False
     except Exception as e:
         out.viol('accessor-raised', f'{tag}:{type(e).__name__}', f'{type(e).__name__}: {e}')
         return False
